@@ -47,6 +47,8 @@ class Env:
         self.obs = None
         self.handlers = []
         self.scratch = None
+        import zlib
+        self.mult = (1, 3, 5, 7)[zlib.crc32(repr(sorted(prog.items())).encode()) % 4]
 
 
 ENV: Env | None = None
@@ -82,6 +84,15 @@ def make_classes():
             ENV.serial += 1
             self.w = int(watch.path[2:])
             ENV.s.log("emnew", self.serial, self.w)
+
+        def __hash__(self):
+            # BaseObserver keeps its emitters in a set: an address-based hash would make the iteration order of
+            # _clear_emitters (and with it the rest of the schedule) differ from run to run; replays need it fixed
+            n = getattr(self, "serial", 0)
+            return 2000 + 8 * n + ((n + 1) * ENV.mult) % 8      # ENV.mult (odd, from the program) varies the set order
+
+        def __eq__(self, o):
+            return self is o
 
         def start(self):
             ENV.s.log("emstart", who(), self.serial, self.ident is not None)
